@@ -55,10 +55,10 @@ def run(ctx):
         flags = set()
         nsteps = rng.randint(5, 40)
         for _ in range(nsteps):
-            before = (ctx.counters["ops.set_custom"] + ctx.counters["ops.set_preset"], ctx.counters["ops.set_invalid"],
+            before = (ctx.counters["ops.set_custom"] + ctx.counters["ops.set_preset"] + ctx.counters["ops.set_neighbour"], ctx.counters["ops.set_invalid"],
                       sum(v for k, v in ctx.counters.items() if k.startswith("mutations.")))
             M.step(rng, pool_d, pool_e)
-            after = (ctx.counters["ops.set_custom"] + ctx.counters["ops.set_preset"], ctx.counters["ops.set_invalid"],
+            after = (ctx.counters["ops.set_custom"] + ctx.counters["ops.set_preset"] + ctx.counters["ops.set_neighbour"], ctx.counters["ops.set_invalid"],
                      sum(v for k, v in ctx.counters.items() if k.startswith("mutations.")))
             for i in range(3):
                 if after[i] > before[i]:
